@@ -1,0 +1,76 @@
+//! Verification-only surface (compiled only with
+//! `--cfg isographlabs_isograph_verif`). Re-exports crate-private functions so
+//! that an external monitor can drive the real planning / apply / event
+//! categorisation code, and a fault plan that makes the N-th file-system
+//! primitive of `apply_file_system_operations` fail. Purely additive: with no
+//! plan installed nothing changes.
+use std::cell::Cell;
+
+use artifact_content::FileSystemState;
+use common_lang_types::{
+    ArtifactPathAndContent, FileSystemOperation, LocationFreeDiagnosticResult,
+};
+use isograph_config::CompilerConfig;
+use notify_debouncer_full::DebouncedEvent;
+use std::path::Path;
+
+use crate::watch::SourceFileEvent;
+
+thread_local! {
+    /// `Some(n)`: the primitive reached when the countdown is 0 fails.
+    static FAULT_COUNTDOWN: Cell<Option<usize>> = const { Cell::new(None) };
+    /// Number of primitives attempted since the last reset.
+    static PRIMITIVES_SEEN: Cell<usize> = const { Cell::new(0) };
+}
+
+pub fn set_fault_plan(fail_at: Option<usize>) {
+    FAULT_COUNTDOWN.with(|c| c.set(fail_at));
+    PRIMITIVES_SEEN.with(|c| c.set(0));
+}
+
+pub fn primitives_seen() -> usize {
+    PRIMITIVES_SEEN.with(|c| c.get())
+}
+
+/// Called before each file-system primitive. Returns an error if the plan says
+/// this one fails (one-shot: the plan is cleared when it fires).
+pub(crate) fn fault_point() -> std::io::Result<()> {
+    PRIMITIVES_SEEN.with(|c| c.set(c.get() + 1));
+    FAULT_COUNTDOWN.with(|c| match c.get() {
+        Some(0) => {
+            c.set(None);
+            Err(std::io::Error::other("verif: injected I/O fault"))
+        }
+        Some(n) => {
+            c.set(Some(n - 1));
+            Ok(())
+        }
+        None => Ok(()),
+    })
+}
+
+pub fn get_file_system_operations(
+    paths_and_contents: &[ArtifactPathAndContent],
+    artifact_directory: &Path,
+    file_system_state: &mut Option<FileSystemState>,
+) -> Vec<FileSystemOperation> {
+    crate::write_artifacts::get_file_system_operations(
+        paths_and_contents,
+        artifact_directory,
+        file_system_state,
+    )
+}
+
+pub fn apply_file_system_operations(
+    operations: &[FileSystemOperation],
+    artifacts: &[ArtifactPathAndContent],
+) -> LocationFreeDiagnosticResult<usize> {
+    crate::write_artifacts::apply_file_system_operations(operations, artifacts)
+}
+
+pub fn categorize_and_filter_events(
+    events: &[DebouncedEvent],
+    config: &CompilerConfig,
+) -> Option<Vec<SourceFileEvent>> {
+    crate::watch::categorize_and_filter_events_for_verif(events, config)
+}
